@@ -23,7 +23,7 @@ def start(prop, tier, seed):
     P.build_harness()
     P.build_lean()
     run.coverage.update(dict(obligations=au['obligations'], discharged=au['discharged'], theorems=au['names'], axioms=au['axioms'],
-                             checker_cmd=au['checker_cmd'], trusted_base=TRUSTED_BASE))
+                             checker_cmd=au['checker_cmd'], kernel_recheck=au.get('kernel_recheck'), trusted_base=TRUSTED_BASE))
     return run
 
 
